@@ -193,18 +193,30 @@ def r2_cleanup_loop(run, w):
          "column; every other column is asked", not leak, witness=wit, fi=fn.fi, node=lp.stmt)
   # non-empty updates are emitted on every branch
   is_updates = lambda x: isinstance(x, ast.Name) and x.id == uvar
+  def record_updater(c, f):
+    """FuncInfo when call c runs the (table, rows, columns) update of records as a user action
+    would: a method of the class taking those three whose body dispatches to doBulkUpdateRecord
+    (_BulkUpdateRecord_decoded today; found by this role, the name is not relied upon)."""
+    hfi_ = H.self_method(w, f, c)
+    if hfi_ is None or len(hfi_.params()) != 4 or hfi_.name.startswith("doBulk") or \
+        len(c.args) + len(c.keywords) != 3:
+      return None
+    if any(isinstance(x, ast.Attribute) and x.attr == "doBulkUpdateRecord"
+           for x in ast.walk(hfi_.node)):
+      return hfi_
+    return None
   emit = set()
   for (n, c, nm) in fn.calls():
     if n.id not in body:
       continue
     targs = None
-    if nm == "self._BulkUpdateRecord_decoded" and len(c.args) + len(c.keywords) == 3:
-      hfi = w.repo.func("useractions.UserActions._BulkUpdateRecord_decoded")
+    if record_updater(c, fn) is not None:
+      hfi = record_updater(c, fn)
       try:
         targs = [H.arg_of(c, hfi, p) for p in hfi.params()[1:4]]
       except AnalysisError:
         targs = None
-    elif E.is_strict_gateway_call(c, nm, fn) and H.norm(w, fn, c).args:
+    elif H.is_strict_gateway(w, c, nm, fn) and H.norm(w, fn, c).args:
       r = E.action_ctor(H.deref(fn, H.norm(w, fn, c).args[0]), names)
       if r and r[0] == "BulkUpdateRecord" and H.action_nargs(r[1]) == 3:
         targs = [H.action_arg(r[1], names, r[0], i) for i in range(3)]
@@ -216,9 +228,9 @@ def r2_cleanup_loop(run, w):
       emit.add(n.id)
   # ... or inside a private helper that is handed the column and its updates and always emits
   def emits(c, nm, f):
-    if nm == "self._BulkUpdateRecord_decoded":
+    if record_updater(c, f) is not None:
       return True
-    if E.is_strict_gateway_call(c, nm, f) and H.norm(w, f, c).args:
+    if H.is_strict_gateway(w, c, nm, f) and H.norm(w, f, c).args:
       r = E.action_ctor(H.deref(f, H.norm(w, f, c).args[0]), names)
       return bool(r and r[0] == "BulkUpdateRecord")
     return False
@@ -268,7 +280,7 @@ def r2_cleanup_loop(run, w):
     ok = not g.ifs and from_index and not filtered and isinstance(elt, ast.Tuple) and \
         len(elt.elts) == 2 and \
         text(elt.elts[0]) == text(g.target) and isinstance(elt.elts[1], ast.Call) and \
-        gu.name(elt.elts[1]) == "self._raw_get_without" and \
+        H.self_method(w, gu, elt.elts[1]) is not None and \
         [H.canon(gu, a) for a in H.norm(w, gu, elt.elts[1]).args] == [text(g.target), p]
   elif not (len(rets) == 1 and rets[0][1] is not None):
     raise AnalysisError("get_updates_for_removed_target_rows: returned value not recognised")
@@ -289,7 +301,13 @@ def r3_registration(run, w):
   R3 = "C10-R3"
   # inverse_map exactness: C05-R5, recorded under C10-R3
   # (run on keyword-normalised copies: C05-R5 reads call arguments by position)
-  r5_reference_index(H.RuleAlias(run, {"C05-R5": R3}, w), H.NormWorld(w))
+  def updates_references(fi):
+    """(row, old value, new value) -> remove the old targets from / add the new ones to the
+    column's relation: _update_references today"""
+    attrs = {x.attr for x in ast.walk(fi.node) if isinstance(x, ast.Attribute)}
+    return len(fi.params()) == 4 and {"remove_reference", "add_reference"} <= attrs
+  r5_reference_index(H.RuleAlias(run, {"C05-R5": R3}, w), H.NormWorld(
+    w, canonical={"column.BaseReferenceColumn._update_references": updates_references}))
   run.rule(R3, "registration pairing: a reference column joins its target table's "
            "_back_references on creation and leaves on destroy, nobody else writes the set; the "
            "reverse index follows every write (C05-R5)", floor=12)
